@@ -218,6 +218,36 @@ verif_harness! {
         Some(state_bytes_eq(&a, &b))
     }
 }
+
+// the same pair at two CONSTANT odd lengths: every loop of the padding code then has a concrete trip count (a change that
+// re-implements the padding with chunk iterators made the symbolic-length form above exceed the quick cap on the zeroize build)
+fn short_eq_padded_at<const LEN: usize>(inp: &[u8]) -> Option<bool> {
+    use cipher::KeyInit;
+    let key: [u8; 32] = take(inp, 0);
+    let mut padded = [0u8; 32];
+    let mut i = 0;
+    while i < 32 {
+        if i < LEN { padded[i] = key[i]; } else if i == LEN { padded[i] = 1; }
+        i += 1;
+    }
+    let a = match crate::Serpent::new_from_slice(&key[..LEN]) { Ok(c) => core::mem::MaybeUninit::new(c), Err(_) => return Some(false) };
+    let b = match crate::Serpent::new_from_slice(&padded[..]) { Ok(c) => core::mem::MaybeUninit::new(c), Err(_) => return Some(false) };
+    Some(state_bytes_eq(&a, &b))
+}
+//@ harness name=serpent_short17_eq_padded prop=C11,C08 quick=C08 tier=quick bits=256 est=100 desc="Serpent::new_from_slice(&k[..17]) yields the same round keys as new_from_slice of k[..17] || 0x01 || 0x00..: a key length that is not a multiple of 4 (pad bit inside a word); all key bytes symbolic; public API only"
+verif_harness! {
+    name: serpent_short17_eq_padded,
+    bytes: 32,
+    unwind: 600,
+    prop: |inp| { short_eq_padded_at::<17>(&inp[..]) }
+}
+//@ harness name=serpent_short30_eq_padded prop=C11,C08 quick=C08 tier=quick bits=256 est=100 desc="as serpent_short17_eq_padded for a 30-byte key"
+verif_harness! {
+    name: serpent_short30_eq_padded,
+    bytes: 32,
+    unwind: 600,
+    prop: |inp| { short_eq_padded_at::<30>(&inp[..]) }
+}
 ''',
     "cast6": r'''
 // ---- C11: a 16/20/24/28-byte CAST-256 key and its zero-padded 32-byte form give the same cipher
@@ -333,6 +363,8 @@ def emit(crate, rows):
     rstubs = (", stubs: [%s]" % route_pairs) if route_pairs else ""
     rmeta = "stub=1 " if route_pairs else ""
     rnote = " (non-linear leaf uninterpreted; totality with nothing abstracted is decided by the *_total_* harness)" if route_pairs else "; nothing abstracted"
+    if crate in ("blowfish", "twofish"):
+        rnote = " (key-dependent leaf uninterpreted; the leaf itself is decided on arbitrary states by the conformance family's leaf lemmas)"
     for t in rows:
         n = ident_of(t)
         ty, bs, kl = t["ty"], t["bs"], t["klen"]
@@ -363,7 +395,9 @@ def emit(crate, rows):
         else:
             o[-1] = o[-1].replace("tier=thorough", "tier=quick").replace("bits=2416", "bits=16").replace("buf (300 bytes) and len (0..=300) symbolic", "len (0..=300) symbolic, key content the zero string (default new_from_slice: the verdict depends on the length only)")
             o.append("g_keylen0!(%s_keylen, %s, 300, %s);\n" % (n, ty, t["accepted"]))
-        if t["eq_slice"]:
+        if t["eq_slice"] and crate in OVERRIDES_NFS:
+            # (types with the default new_from_slice: new_from_slice IS `try_from(slice).map(new)` of the cipher crate; two
+            # symbolic key schedules per type to re-decide that were measured in the hundreds of seconds and are not emitted)
             o.append('//@ harness name=%s_new_eq_slice prop=C11 tier=%s bits=%d %sdesc="%s::new(&key) and new_from_slice(&key[..]) yield the same state for every %d-byte key%s"\n' % (n, "quick" if (crate in OVERRIDES_NFS and (stub_pair or not t["heavy_ks"])) else "thorough", 8 * kl, "stub=1 " if stub_pair else "", ty, kl, "; key schedule replaced by a cheap stand-in that is injective in key bytes and length (the subject is what the constructors hand to it)" if stub_pair else ""))
             o.append("g_new_eq_slice!(%s_new_eq_slice, %s, %d, %s%s);\n" % (n, ty, kl, t["exempt"], (", stubs: [%s]" % stub_pair) if stub_pair else ""))
         o.append('//@ harness name=%s_zeroize prop=C16 tier=quick bits=64 variants=%s+zeroize desc="drop_in_place of an arbitrary-state %s (zeroize feature) leaves every non-padding byte of its storage zero"\n' % (n, crate, ty))
@@ -387,14 +421,21 @@ def emit(crate, rows):
                     o.append('//@ harness name=%s_mixed_%s%s prop=C15,C20 tier=%s bits=%d %sdesc="%s: on one arbitrary-state instance, after %s(x) the call %s(x) returns what a pristine instance with the same state returns (no memoisation across directions), instance bytes unchanged%s"\n' % (n, first, second, tier, 8 * bs + 64, rmeta, ty, first, second, rnote))
                     o.append("g_mixed_half!(%s_mixed_%s%s, %s, %d, %s, %s, %s%s);\n" % (n, first, second, ty, bs, t["valid"], first, second, rstubs))
             else:
-                o.append("g_mixed!(%s_mixed, %s, %d, %s%s);\n" % (n, ty, bs, t["valid"], rstubs))
+                # without an abstractable leaf the six-computation history is out of reach (even two copies of one cipher are a
+                # hard equivalence): not emitted; the two-computation forms below are what is decided for these types
+                o.pop()
         for d in t["dirs"]:
             if t["frame"]:
                 o.append('//@ harness name=%s_frame2_%s prop=C15,C20 tier=%s bits=%d %s%sdesc="%s: %s_block twice with the same block on one arbitrary-valid-state instance returns (no panic / overflow / bounds failure), gives the same result both times and leaves every byte of the instance unchanged%s"\n' % (n, d, tier, 8 * bs + 64, rmeta, "quick=C20 " if d == t["dirs"][0] else "", ty, "encrypt" if d == "enc" else "decrypt", rnote))
                 o.append("g_frame2!(%s_frame2_%s, %s, %d, %s, %s%s);\n" % (n, d, ty, bs, t["valid"], d, rstubs))
                 o.append('//@ harness name=%s_frame_%s prop=C15,C20 tier=%s bits=%d %sdesc="%s: %s_block on an arbitrary valid state returns for every block (no panic / overflow / bounds failure); the history op(x); op(y); op(x) on one instance gives equal first and third results and leaves every byte of the instance unchanged%s"\n' % (n, d, "thorough", 16 * bs + 64, rmeta, ty, "encrypt" if d == "enc" else "decrypt", rnote))
-                o.append("g_frame1!(%s_frame_%s, %s, %d, %s, %s%s);\n" % (n, d, ty, bs, t["valid"], d, rstubs))
                 if route_pairs:
+                    o.append("g_frame1!(%s_frame_%s, %s, %d, %s, %s%s);\n" % (n, d, ty, bs, t["valid"], d, rstubs))
+                else:
+                    o.pop()
+                if route_pairs and crate not in ("blowfish", "twofish"):
+                    # (Blowfish / Twofish with the real key-dependent S-box look-ups on an arbitrary state: out of memory /
+                    # no answer in 900 s; their leaves are decided on arbitrary states by bf_round_function and tf_leaf_g_*)
                     o.append('//@ harness name=%s_total_%s prop=C20 tier=%s bits=%d desc="%s: one %s_block call on an arbitrary valid state and block returns and leaves the instance unchanged; NOTHING abstracted (every overflow / bounds / shift / unwrap / debug assertion on the path is an obligation)"\n' % (n, d, tier, 8 * bs + 64, ty, "encrypt" if d == "enc" else "decrypt"))
                     o.append("g_total!(%s_total_%s, %s, %d, %s, %s);\n" % (n, d, ty, bs, t["valid"], d))
             if t["blocks"]:
@@ -410,7 +451,7 @@ def emit(crate, rows):
                         o.append('//@ harness name=%s_blocks_%s_%s prop=C04,C20 tier=%s bits=%d %sdesc="%s (%s): %s; arbitrary valid state (non-linear leaf uninterpreted)"\n' % (n, d, part, "thorough", 8 * bs * t["nb"] + 72, rmeta, ty, d, what))
                         o.append("g_blocks_part!(%s_blocks_%s_%s, %s, %d, %d, %s, %s, %s%s);\n" % (n, d, part, ty, bs, t["nb"], t["valid"], d, part, rstubs))
                 else:
-                    o.append("g_blocks1!(%s_blocks_%s, %s, %d, %d, %s, %s%s);\n" % (n, d, ty, bs, t["nb"], t["valid"], d, rstubs))
+                    o.pop()   # nine block computations without an abstractable leaf: not emitted (see the mixed history above)
     o.append(EXTRA.get(crate, ""))
     p = os.path.join(VERIF, "harness", crate, "xcut.rs")
     os.makedirs(os.path.dirname(p), exist_ok=True)
@@ -432,6 +473,11 @@ def emit(crate, rows):
     out = []
     for line in text.split("\n"):
         m = re.match(r"//@ harness name=(\w+) ", line)
+        if m and tiers.get("%s/%s" % (crate, m.group(1)), {}).get("tier") == "off":
+            # did not finish in the thorough measuring run either (bin/prune-thorough): kept in the file, not run
+            why = tiers["%s/%s" % (crate, m.group(1))].get("why", "off")
+            line = line.replace("//@ harness name=", "//@ disabled-harness reason=%s name=" % why, 1)
+            m = None
         if m and ("%s/%s" % (crate, m.group(1))) in tiers and " tier=quick" in line:
             line = line.replace(" tier=quick", " tier=" + tiers["%s/%s" % (crate, m.group(1))]["tier"], 1)
             if "memory" in tiers["%s/%s" % (crate, m.group(1))].get("why", "") and " mem=" not in line:
